@@ -23,7 +23,9 @@ Record WInv (s : ws) : Prop := mkWI {
   k_disp : w_dispRet s = true ->
            w_disposed s = true /\ w_client s = CNone /\ (w_wpc s = WOff \/ w_wpc s = WExited);
   k_disp2 : w_disposed s = true -> w_recent s = None;
-  k_off : w_wpc s = WOff -> w_lastTick s = 0 }.
+  k_off : w_wpc s = WOff -> w_lastTick s = 0;
+  k_data : watching (w_wpc s) = true -> w_first s = false ->
+           w_hasData s = true \/ exists b, w_client s = CStarted b true \/ exists v, w_client s = CRead b true v }.
 
 Lemma winv0 : WInv ws0.
 Proof.
@@ -47,6 +49,21 @@ Ltac wold :=
       intros b v H H2; destruct (K b v H H2); split; lia
   end.
 
+Ltac kdata :=
+  let Hwt := fresh "Hwt" in let Hf := fresh "Hf" in
+  intros Hwt Hf; simpl in *; try discriminate;
+  first [ left; reflexivity
+        | match goal with K : watching _ = true -> _ = false -> _ |- _ =>
+            let X := fresh "X" in let b0 := fresh "b0" in let v0 := fresh "v0" in
+            destruct (K ltac:(first [assumption | reflexivity]) Hf) as [X|[b0 [X|[v0 X]]]];
+            [ left; rewrite ?X; auto; repeat match goal with |- context [if ?c then _ else _] => destruct c end; auto
+            | first [ congruence | right; exists b0; left; congruence
+                    | inversion X; subst; right; eexists; right; eexists; reflexivity
+                    | inversion X; subst; left; reflexivity ]
+            | first [ congruence | right; exists b0; right; exists v0; congruence
+                    | inversion X; subst; left; reflexivity ] ]
+          end ].
+
 Lemma wexec_inv : forall s a s' l, WInv s -> wexec s a = Some (s', l) -> WInv s'.
 Proof.
   intros s a s' l I H. pose proof I as I0. destruct I.
@@ -58,6 +75,7 @@ Proof.
     inversion H; subst; clear H. apply andb_true_iff in C as [C1 C2]. apply negb_true_iff in C1, C2.
     destruct (w_wpc s) eqn:P; simpl in C2; try discriminate.
     constructor; simpl; auto; try (intros; discriminate).
+      all: try solve [kdata].
     + intros _. rewrite (k_off0 eq_refl). lia.
     + intros b [Hx|[v Hx]]; discriminate.
     + intros Hd. destruct (k_disp0 Hd) as [D _]. congruence.
@@ -66,6 +84,7 @@ Proof.
     destruct (negb (w_disposed s) && negb (watcher_owns (w_wpc s))) eqn:C; [|discriminate].
     inversion H; subst; clear H. apply andb_true_iff in C as [C1 C2]. apply negb_true_iff in C1, C2.
     constructor; simpl; auto; try (intros; discriminate); try wold.
+      all: try solve [kdata].
     all: try solve [intros X; congruence].
     all: try solve [intros b Hb; inversion Hb; subst; split; auto;
                     destruct (w_fver s (w_nb s)) eqn:F; auto; apply k_fin0 in F; lia].
@@ -76,6 +95,7 @@ Proof.
     destruct (w_client s) eqn:Cc; try discriminate.
     inversion H; subst; clear H.
     constructor; simpl; auto; try wold.
+      all: try solve [kdata].
     all: try solve [intros b0 cw0 v0 E; inversion E; subst; split; auto].
     all: try solve [intros X; specialize (k_one0 X); discriminate].
     all: try solve [intros b0 Hb; inversion Hb; subst; apply k_active0; reflexivity].
@@ -86,6 +106,7 @@ Proof.
     destruct (k_cread0 b cw v eq_refl) as [R1 R2].
     destruct (k_active0 b eq_refl) as [A1 A2].
     constructor; simpl; auto; try (intros; discriminate); try wold.
+      all: try solve [kdata].
     all: try solve [destruct cw; lia].
     all: try solve [intros Hi; specialize (k_idle0 Hi); destruct cw; lia].
     all: try solve [intros b0 v0 Hj; unfold updf; destruct (Nat.eqb_spec b0 b); intros E;
@@ -100,6 +121,19 @@ Proof.
                      intros b' v'; destruct (Nat.eqb_spec b' b); intros F; [lia|]; apply k_fin0 in F; lia]].
     all: try solve [intros Hd; destruct (k_disp0 Hd) as [_ [D _]]; discriminate].
     all: try solve [intros D; rewrite D; reflexivity].
+  - (* the first watch-mode build starts: no build is in flight *)
+    destruct (w_client s) eqn:Cc; try discriminate.
+    destruct (w_first s && negb (w_disposed s) && negb (watcher_owns (w_wpc s))) eqn:C; [|discriminate].
+    inversion H; subst; clear H. apply andb_true_iff in C as [C C2]. apply andb_true_iff in C as [C0 C1].
+    apply negb_true_iff in C1, C2.
+    constructor; simpl; auto; try (intros; discriminate); try wold.
+    all: try solve [intros X; congruence].
+    all: try solve [intros b Hb; inversion Hb; subst; split; auto;
+                    destruct (w_fver s (w_nb s)) eqn:F; auto; apply k_fin0 in F; lia].
+    all: try solve [intros b Hb; exfalso; destruct Hb as [Hb|[v Hb]]; rewrite Hb in C2; discriminate].
+    all: try solve [intros b v F; apply k_fin0 in F; lia].
+    all: try solve [intros Hd; destruct (k_disp0 Hd) as [D _]; congruence].
+    all: try solve [intros _ _; right; eexists; left; reflexivity].
   - (* serve from the recent build *)
     destruct (w_client s); try discriminate. destruct (w_recent s); try discriminate.
     destruct (watcher_owns (w_wpc s)); [discriminate|]. inversion H; subst; clear H.
@@ -109,43 +143,50 @@ Proof.
     + (* WCheck *)
       inversion H; subst; clear H.
       constructor; simpl; auto; try wold; try (destruct (w_stop s); intros; discriminate).
+        all: try solve [kdata].
       all: try solve [destruct (w_stop s); intros [X|X]; try discriminate; apply k_idle0; auto].
       all: try solve [destruct (w_stop s); intros X; simpl in X; discriminate].
       all: try solve [intros b [X|[v X]]; destruct (w_stop s); discriminate].
       all: try solve [intros Hd; destruct (k_disp0 Hd) as [_ [_ [X|X]]]; discriminate].
     + (* WSleep: a tick *)
-      destruct (w_watched s <? w_edits s) eqn:Dirty.
-      * apply Nat.ltb_lt in Dirty.
+      destruct (w_hasData s && (w_watched s <? w_edits s)) eqn:Dirty.
+      * apply andb_true_iff in Dirty as [HasD Dirty]. apply Nat.ltb_lt in Dirty.
         destruct (w_disposed s) eqn:Dsp.
         -- inversion H; subst; clear H. constructor; simpl; auto; try wold; try (intros; discriminate).
+          all: try solve [kdata].
            all: try solve [intros b [X|[v X]]; discriminate].
            all: try solve [intros Hd; destruct (k_disp0 Hd) as [_ [_ [X|X]]]; discriminate].
         -- assert (Li : w_lastTick s <= w_watched s) by (apply k_idle0; auto).
            destruct (w_client s) eqn:Cc; inversion H; subst; clear H.
            ++ (* its own build *)
               constructor; simpl; auto; try lia; try (intros; discriminate).
+                all: try solve [kdata].
               all: try solve [intros [X|X]; discriminate].
               all: try solve [intros b [X|[v X]]; try discriminate; inversion X; subst; split; auto;
                               destruct (w_fver s (w_nb s)) eqn:F; auto; apply k_fin0 in F; lia].
               all: try solve [intros b v F; apply k_fin0 in F; lia].
               all: try solve [intros Hd; destruct (k_disp0 Hd) as [D _]; congruence].
            ++ constructor; simpl; auto; try wold; try (intros; discriminate).
+             all: try solve [kdata].
               all: try solve [intros [X|X]; discriminate].
               all: try solve [intros b0 v0 E F; inversion E; subst b0; destruct (k_active0 b eq_refl) as [_ N]; congruence].
               all: try solve [intros b0 [X|[v X]]; discriminate].
               all: try solve [intros Hd; destruct (k_disp0 Hd) as [_ [D _]]; discriminate].
            ++ constructor; simpl; auto; try wold; try (intros; discriminate).
+             all: try solve [kdata].
               all: try solve [intros [X|X]; discriminate].
               all: try solve [intros b0 v0 E F; inversion E; subst b0; destruct (k_active0 b eq_refl) as [_ N]; congruence].
               all: try solve [intros b0 [X|[v0 X]]; discriminate].
               all: try solve [intros Hd; destruct (k_disp0 Hd) as [_ [D _]]; discriminate].
       * inversion H; subst; clear H. constructor; simpl; auto; try wold; try (intros; discriminate).
+        all: try solve [kdata].
         all: try solve [intros _; apply k_idle0; auto].
         all: try solve [intros b [X|[v X]]; discriminate].
         all: try solve [intros Hd; destruct (k_disp0 Hd) as [_ [_ [X|X]]]; discriminate].
     + (* WOwn: read *)
       inversion H; subst; clear H.
       constructor; simpl; auto; try wold; try (intros; discriminate).
+        all: try solve [kdata].
       all: try solve [intros [X|X]; discriminate].
       all: try solve [intros b0 v0 E; inversion E; subst; split; auto].
       all: try solve [intros _; apply k_one0; reflexivity].
@@ -156,6 +197,7 @@ Proof.
       destruct (k_wread0 b v eq_refl) as [R1 R2].
       destruct (k_wactive0 b (or_intror (ex_intro _ v eq_refl))) as [A1 A2].
       constructor; simpl; auto; try lia; try wold; try (intros; discriminate).
+        all: try solve [kdata].
       all: try solve [intros [X|X]; discriminate].
       all: try solve [intros v0 E; inversion E; subst; split; auto].
       all: try solve [intros b0 Hb; destruct (k_active0 b0 Hb) as [W1 W2]; split; auto; unfold updf;
@@ -171,6 +213,7 @@ Proof.
     + (* WJoin *)
       destruct (w_fver s b) eqn:F; [|discriminate]. inversion H; subst; clear H.
       constructor; simpl; auto; try wold; try (intros; discriminate).
+        all: try solve [kdata].
       all: try solve [intros [X|X]; discriminate].
       all: try solve [intros v0 E; inversion E; subst; apply (k_wjoin0 b v0 eq_refl F)].
       all: try solve [intros b0 [X|[v0 X]]; discriminate].
@@ -179,11 +222,13 @@ Proof.
       inversion H; subst; clear H.
       destruct (k_wset0 v eq_refl) as [R1 R2].
       constructor; simpl; auto; try lia; try wold; try (intros; discriminate).
+        all: try solve [kdata].
       all: try solve [intros b0 [X|[v0 X]]; discriminate].
       all: try solve [intros Hd; destruct (k_disp0 Hd) as [_ [_ [X|X]]]; discriminate].
   - (* dispose starts *)
     destruct (w_disposed s) eqn:Dsp; [discriminate|]. inversion H; subst; clear H.
     constructor; simpl; auto; try wold; try (intros; discriminate).
+      all: try solve [kdata].
     all: try solve [intros Hd; destruct (k_disp0 Hd) as [D _]; congruence].
   - (* dispose returns *)
     destruct (w_disposed s && match w_wpc s with WOff | WExited => true | _ => false end
@@ -191,6 +236,7 @@ Proof.
     inversion H; subst; clear H.
     apply andb_true_iff in C as [C C3]. apply andb_true_iff in C as [C1 C2].
     constructor; simpl; auto.
+      all: try solve [kdata].
     intros _. split; auto. split.
     + destruct (w_client s); auto; discriminate.
     + destruct (w_wpc s); auto; discriminate.
@@ -252,7 +298,7 @@ Proof.
   intros acts s tr H D. pose proof (wrun_inv _ _ _ _ winv0 H) as I.
   destruct (k_disp _ I D) as [Dd [Cc Wp]]. pose proof (k_disp2 _ I Dd) as Rc.
   repeat split; auto; destruct a; simpl in H0; rewrite ?Dd, ?Cc, ?Rc in H0; simpl in H0;
-    destruct Wp as [Wp|Wp]; rewrite ?Wp in H0; simpl in H0;
+    destruct Wp as [Wp|Wp]; rewrite ?Wp in H0; simpl in H0; rewrite ?andb_false_r in H0; simpl in H0;
     repeat match type of H0 with
            | (if ?c then _ else _) = _ => destruct c
            | match ?c with _ => _ end = _ => destruct c
@@ -266,22 +312,55 @@ Proof.
   intros acts s tr b H R. pose proof (wrun_inv _ _ _ _ winv0 H) as I. apply (k_recent _ I b R).
 Qed.
 
+(* The first watch-mode build starts only when no build is in flight (that is
+   what `if build != nil { build.waitGroup.Wait() }` in Watch's goroutine is
+   for), and it is a build begun after watch mode was switched on *)
+Theorem first_build_after_inflight : forall s s' l, wexec s XFirstStart = Some (s', l) ->
+  w_client s = CNone /\ w_client s' = CStarted (w_nb s) true /\ w_first s' = false.
+Proof.
+  intros s s' l H. simpl in H. destruct (w_client s); try discriminate.
+  destruct (w_first s && negb (w_disposed s) && negb (watcher_owns (w_wpc s))); [|discriminate].
+  inversion H; subst; simpl. auto.
+Qed.
+
+(* ... therefore, once that build is over, the watcher has watch data: *)
+Theorem watch_data_after_first_build : forall acts s tr, wrun ws0 acts = Some (s, tr) ->
+  watching (w_wpc s) = true -> w_first s = false -> w_client s = CNone -> w_hasData s = true.
+Proof.
+  intros acts s tr H Hw Hf Hc. pose proof (wrun_inv _ _ _ _ winv0 H) as I.
+  destruct (k_data _ I Hw Hf) as [X|[b [X|[v X]]]]; auto; congruence.
+Qed.
+
 (* a change is never missed: whenever the watcher goroutine sleeps on a live
-   context with no client build in flight and the recorded watch data is behind
-   the inputs, its next tick starts a build *)
-Theorem change_is_noticed : forall s, w_wpc s = WSleep -> w_disposed s = false -> w_client s = CNone ->
+   context whose first watch-mode build is over, with no client build in flight
+   and the recorded watch data behind the inputs, its next tick starts a build *)
+Theorem change_is_noticed : forall acts s tr, wrun ws0 acts = Some (s, tr) ->
+  w_wpc s = WSleep -> w_disposed s = false -> w_client s = CNone -> w_first s = false ->
   w_watched s < w_edits s -> exists s', wexec s XWatcher = Some (s', WBuild (w_nb s)).
 Proof.
-  intros s P D C L. simpl. rewrite P. apply Nat.ltb_lt in L. rewrite L, D, C. eauto.
+  intros acts s tr H P D C F L.
+  assert (Hd : w_hasData s = true).
+  { eapply watch_data_after_first_build; eauto. rewrite P. reflexivity. }
+  simpl. rewrite P. apply Nat.ltb_lt in L. rewrite Hd, L, D, C. simpl. eauto.
 Qed.
+
+(* without the first watch-mode build the watcher has nothing to poll: a Watch
+   switched on while a (non-watch) build is in flight records no data from
+   that build, and a later edit is not noticed until the first build has run *)
+Example no_data_no_build :
+  option_map (fun x => wexec (fst x) XWatcher)
+             (wrun ws0 [XClientStart; XWatch; XClientRead; XClientFinish; XEdit; XWatcher])
+  = option_map (fun x => Some (mkW false false CNone WCheck (Some 0) 1 0 1 (w_fver (fst x)) 0 0 false false true, WTau))
+               (wrun ws0 [XClientStart; XWatch; XClientRead; XClientFinish; XEdit; XWatcher]).
+Proof. vm_compute. reflexivity. Qed.
 
 (* but a change can be built twice: the watcher goroutine's second
    setWatchData (after rebuild() returned) may overwrite the newer watch data
    of a client build that ran in between, and the next tick rebuilds although
    the latest finished build already contains the current inputs *)
 Definition wit_redundant : list wact :=
-  [XWatch; XEdit; XWatcher; XWatcher; XWatcher; XWatcher; XEdit; XClientStart; XClientRead; XClientFinish;
-   XWatcher; XWatcher].
+  [XWatch; XFirstStart; XClientRead; XClientFinish; XEdit; XWatcher; XWatcher; XWatcher; XWatcher; XEdit;
+   XClientStart; XClientRead; XClientFinish; XWatcher; XWatcher].
 Theorem redundant_watch_build_possible :
   exists s tr s' b, wrun ws0 wit_redundant = Some (s, tr) /\
     w_fver s b = Some (w_edits s) /\ w_client s = CNone /\
@@ -289,5 +368,5 @@ Theorem redundant_watch_build_possible :
 Proof.
   destruct (wrun ws0 wit_redundant) as [[s tr]|] eqn:R; [|vm_compute in R; discriminate].
   vm_compute in R. inversion R; subst; clear R.
-  eexists. eexists. eexists. exists 1. repeat split; vm_compute; reflexivity.
+  eexists. eexists. eexists. exists 2. repeat split; vm_compute; reflexivity.
 Qed.
